@@ -126,12 +126,30 @@ Lemma find_method_in : forall ms key d, find_method ms key = Some d -> In d ms.
 Proof. intros ms key d H. unfold find_method in H. apply find_some in H. tauto. Qed.
 
 (* ------------------------------------------------------------------ small arithmetic facts about len(...) *)
-Lemma len2_eq0 : forall n, cmp_eval OpEq (Z.of_nat (S (S n))) 0 = false.
-Proof. intro n. unfold cmp_eval. apply Z.eqb_neq. lia. Qed.
-Lemma len2_eq1 : forall n, cmp_eval OpEq (Z.of_nat (S (S n))) 1 = false.
-Proof. intro n. unfold cmp_eval. apply Z.eqb_neq. lia. Qed.
-Lemma len2_le1 : forall n, cmp_eval OpLe (Z.of_nat (S (S n))) 1 = false.
-Proof. intro n. unfold cmp_eval. apply Z.leb_gt. lia. Qed.
+(** comparing the length of a list of two or more with a constant <= 1 is comparing 2 with it: the
+    proofs below do not depend on how the generated conditions spell such a test *)
+Ltac cmp_cases :=
+  unfold cmp_eval;
+  repeat match goal with
+         | |- context [Z.eqb ?a ?b] => destruct (Z.eqb_spec a b)
+         | |- context [Z.leb ?a ?b] => destruct (Z.leb_spec a b)
+         | |- context [Z.ltb ?a ?b] => destruct (Z.ltb_spec a b)
+         end; try reflexivity; try (exfalso; lia).
+Lemma len2_eqb : forall n k, (k <= 1)%Z -> (Z.of_nat (S (S n)) =? k) = (2 =? k).
+Proof. intros n k Hk. cmp_cases. Qed.
+Lemma len2_leb : forall n k, (k <= 1)%Z -> (Z.of_nat (S (S n)) <=? k) = (2 <=? k).
+Proof. intros n k Hk. cmp_cases. Qed.
+Lemma len2_ltb : forall n k, (k <= 1)%Z -> (Z.of_nat (S (S n)) <? k) = (2 <? k).
+Proof. intros n k Hk. cmp_cases. Qed.
+Lemma len2_geb : forall n k, (k <= 1)%Z -> (k <=? Z.of_nat (S (S n))) = (k <=? 2).
+Proof. intros n k Hk. cmp_cases. Qed.
+Lemma len2_gtb : forall n k, (k <= 1)%Z -> (k <? Z.of_nat (S (S n))) = (k <? 2).
+Proof. intros n k Hk. cmp_cases. Qed.
+Ltac len2 :=
+  unfold cmp_eval;
+  repeat first [rewrite len2_eqb by lia | rewrite len2_leb by lia | rewrite len2_ltb by lia
+               | rewrite len2_geb by lia | rewrite len2_gtb by lia];
+  cbn.
 
 (* ------------------------------------------------------------------ process_request *)
 Definition pr_args (U : universe) (d : descriptor) (io : inobj) : out (list pyv) :=
@@ -154,7 +172,7 @@ Proof.
     destruct gs as [|g1 [|g2 gs]]; unfold out_object_of; cbn -[cmp_eval Z.of_nat].
     + exists true. split; reflexivity.
     + exists true. split; reflexivity.
-    + exists false. rewrite len2_le1. split; reflexivity.
+    + eexists. split; [len2; reflexivity|reflexivity].
   - exists true. split; reflexivity.
   - exists true. split; reflexivity.
   - exists true. split; reflexivity.
@@ -304,7 +322,7 @@ Section WireProofs.
     - cbn in E3. subst mo. destruct gs as [|g1 [|g2 gs]]; cbn -[cmp_eval Z.of_nat].
       + destruct x; try discriminate Hp; reflexivity.
       + destruct x; try discriminate Hp; reflexivity.
-      + rewrite len2_eq0, len2_eq1. reflexivity.
+      + len2. reflexivity.
     - inversion Ho as [E|t' E]; cbn in E; subst mo; cbn in Hf |- *.
       + destruct x as [[| | |]| | | |]; try discriminate Hf; reflexivity.
       + destruct x; try discriminate Hp; reflexivity.
@@ -563,7 +581,7 @@ Proof.
   intros U [nm st mi mo nh] pl Hs. unfold cb_retval, out_object_of.
   inversion Hs as [fs gs E1 E2 E3|t E1 E2 Ho|fs E1 E2 Ho|E1 E2 Ho|E1 E2 Ho]; cbn in E1, E2; subst; try reflexivity.
   cbn in E3. subst mo. destruct gs as [|g1 [|g2 gs]]; try reflexivity.
-  cbn -[cmp_eval Z.of_nat]. rewrite len2_eq0, len2_eq1. reflexivity.
+  cbn -[cmp_eval Z.of_nat]. len2. reflexivity.
 Qed.
 
 Section Ignored.
